@@ -229,7 +229,12 @@ func Render(toks []Tok, r *rand.Rand, l Layout) Rendered {
 				gapClass = "inline"
 			}
 		}
-		wantComment := i > 0 && l.Comments > 0 && r.Float64() < l.Comments
+		// comments are more frequent between statements/members than inside expressions
+		prob := l.Comments * 0.35
+		if t.Glue == Sep || t.Glue == SepLine {
+			prob = l.Comments * 2.5
+		}
+		wantComment := i > 0 && l.Comments > 0 && r.Float64() < prob
 		switch t.Glue {
 		case Tight:
 			// nothing
